@@ -264,7 +264,9 @@ class Unit:
             groups[r["owner"]].append(r)
         for ow in order:
             if ow:
-                out.append("impl%s %s {" % (self.cfg.get("impl_generics", {}).get(ow, ["", ""])[0], ow + self.cfg.get("impl_generics", {}).get(ow, ["", ""])[1]))
+                out.append((self.cfg.get("impl_header", {}).get(ow) or ("impl " + ow)) + " {")
+                if self.cfg.get("impl_extra", {}).get(ow):
+                    out.append(self.cfg["impl_extra"][ow])
             for r in groups[ow]:
                 out.append("// SOURCE %s:%d-%d sha256=%s" % (r["file"], r["line1"], r["line2"], r["sha"]))
                 if r["attrs"]:
